@@ -113,7 +113,16 @@ func runC12(args []string) error {
 			src := p.Go()
 			ck, err := c12TypeCheck(src, false)
 			refOK := err == nil && len(ck.Errs) == 0
-			o := c12EvalInProcess(src, false, nil, 90*time.Second)
+			// the property asks that the well-typed program is not rejected: the static passes succeed.
+			// Whether it then runs to completion is another property's business (counted, not judged).
+			o := c12Compile(src, false, nil)
+			if o.Class == "compiled" {
+				o.Class = "accepted"
+				if ro := c12EvalInProcess(src, false, nil, 90*time.Second); ro.Class != "accepted" {
+					sm.count("mini:original-fails-at-run-time(" + ro.Class + ")")
+					sm.Notes = append(sm.Notes, "a well-typed MiniGo program passes the static checks but fails at run time (not a C12 matter): "+ro.Err)
+				}
+			}
 			sm.Evaluations++
 			sm.RefComparisons++
 			sm.ImplComparisons++
@@ -224,7 +233,13 @@ func runC12(args []string) error {
 			}
 			ck, err := c12TypeCheck(p.Src, true)
 			useStd := strings.Contains(p.Src, "\"strings\"")
-			o := c12EvalInProcess(p.Src, useStd, nil, 90*time.Second)
+			o := c12Compile(p.Src, useStd, nil)
+			if o.Class == "compiled" {
+				o.Class = "accepted"
+				if ro := c12EvalInProcess(p.Src, useStd, nil, 90*time.Second); ro.Class != "accepted" {
+					sm.count("rich:original-fails-at-run-time(" + ro.Class + ")")
+				}
+			}
 			sm.Evaluations++
 			sm.RefComparisons++
 			sm.count("rich:original")
@@ -331,6 +346,13 @@ func runC12(args []string) error {
 			} else {
 				w = c12World(rq.fork())
 			}
+			if w.Clean != nil {
+				if co, _ := w.Clean.eval(); co.Class != "accepted" {
+					// a well-typed package fails at run time under yaegi: not a C12 matter, the world is not used
+					sm.count("multi:skipped(unbroken world fails at run time: " + co.Class + ")")
+					continue
+				}
+			}
 			obs, trace := w.eval()
 			refOK := w.refOK()
 			in := map[string]any{"stream": "multi", "files": w.files(), "broken": w.Broken}
@@ -393,8 +415,9 @@ type c12pkg struct {
 }
 
 type c12world struct {
-	Pkgs   []c12pkg // the last one is main
-	Broken int      // index of the ill-typed package, -1 if none
+	Pkgs   []c12pkg  // the last one is main
+	Broken int       // index of the ill-typed package, -1 if none
+	Clean  *c12world // the same world before one package was broken (nil if none was)
 }
 
 func (w *c12world) name(i int) string {
@@ -441,6 +464,8 @@ func c12World(r *rng) *c12world {
 			}
 		}
 		if len(cands) > 0 {
+			clean := &c12world{Pkgs: append([]c12pkg{}, w.Pkgs...), Broken: -1}
+			w.Clean = clean
 			w.Pkgs[b].Body = cands[r.intn(len(cands))].Prog
 			w.Broken = b
 		}
